@@ -123,6 +123,22 @@ def dates(m: int, nested: bool, now_i: int, off: int) -> bool:
     return V(_run(groups, real, ["x.zo", "@g0"], today))
 
 
+def two_days(m: int, nested: bool, now_a: int, now_b: int) -> bool:
+    """
+    pre: 4 <= m < 8 and 0 <= now_a < 3 and 0 <= now_b < 3 and now_a != now_b
+    post: _
+    """
+    # the same configuration expanded twice in ONE process on two different days: each expansion uses the day it runs on
+    # (nothing date-dependent may be remembered between calls)
+    groups = {"g0": ["@g1", "P"] if nested else [MEMBERS[m], "P"], "g1": [MEMBERS[m]], "g2": []}
+    real = {k: ["p.zo" if x == "P" else x for x in v] for k, v in groups.items()}
+    day_a = set_clock(now_a, 0)
+    ok_a = _run(groups, real, ["x.zo", "@g0"], day_a)
+    day_b = set_clock(now_b, 0)
+    ok_b = _run(groups, real, ["x.zo", "@g0"], day_b)
+    return V(ok_a and ok_b)
+
+
 def concat(m00: int, m01: int, m10: int, a0: int, a1: int, a2: int) -> bool:
     """
     pre: 0 <= m00 < 4 and 0 <= m01 < 4 and 0 <= m10 < 4
